@@ -167,8 +167,8 @@ func runC03(c *fw.Ctx, idx int) fw.Result {
 		recs[k].Desc = recs[k].ID + []string{"", " resequenced"}[r.Intn(2)]
 		res.Count("cases_with_query_named_like_reference", 1)
 	}
-	refText := gen.RefFasta(refName, ref, gen.PickLineWidth(r, len(ref)))
-	aln := gen.RenderFasta(recs, gen.PickLineWidth(r, len(ref)))
+	refText := noFinalNL(r, gen.RefFasta(refName, ref, gen.PickLineWidth(r, len(ref))))
+	aln := noFinalNL(r, gen.RenderFasta(recs, gen.PickLineWidth(r, len(ref))))
 	var exp strings.Builder
 	exp.WriteString("query,SNPs\n")
 	nsnp, ncompat := 0, 0
